@@ -203,6 +203,12 @@ MUTANTS = [
     ('C05', 'pwl_calibration_layer.py', '      tiled_logits = np.tile(initial_logits, self.units)',
      '      tiled_logits = np.repeat(initial_logits, self.units)', 'E7',
      'per-unit rows of the initial logits scrambled'),
+    ('C18', 'premade_lib.py', '  for i in range(len(quantiles_idx)):\n    if i not in first_use:',
+     '  for i in range(1, len(quantiles_idx) - 1):\n    if i not in first_use:', 'K2',
+     'the last quantile position is never repaired'),
+    ('C18', 'premade_lib.py', '  for i in range(len(quantiles_idx)):\n    if i not in first_use:',
+     '  for i in range(1, len(quantiles_idx)):\n    if quantiles_idx[i] == quantiles_idx[i - 1]:', 'K2',
+     'repeat test reads an entry the loop rewrites'),
     # ---- neutral variants (must stay silent)
     ('C08', 'lattice_lib.py', '    average = (layers[i] + layers[i + 1]) / 2.0', '    average = 0.5 * (layers[i] + layers[i + 1])',
      None, 'N: average written as 0.5 * sum'),
